@@ -1,8 +1,16 @@
+import os, subprocess
+
+def _pre(tier):
+    # the `start` feature carrier: a no-libc probe that spawns the helper with Environment::Inherit
+    v = os.path.dirname(os.path.dirname(os.path.dirname(os.path.abspath(__file__))))
+    return subprocess.call([os.path.join(v, "lib", "build_probes.py"), "probe-spawn", "dyn-debug", "pie-release"], stdout=subprocess.DEVNULL)
+
 ID = "C13"
 CFG = {
     "level": "fault_enumeration",
     "engine": "E1 vh + E2 sc shim (plan inherited through fork) + helper binary dumpenv",
     "package": "c13", "bin": "c13",
+    "pre": _pre,
     # same oracle source compiled against tiny-std WITHOUT the `start` feature (the property quantifies over both)
     "variants": [{"package": "c13ns", "bin": "c13ns"}],
     "profiles": ["dev", "release"], "workers": 8,
@@ -17,9 +25,9 @@ CFG = {
              "agrees; on a failing step Err carries that step's positive errno, the program did not run, no zombie and no running process is left. "
              "The same Command value is spawned a second time (when no RawFd stream and no fault is involved) and judged again; the caller's own "
              "descriptors 0/1/2 are closed around the call in a share of the cases. Non-trivial = at least one non-default knob; distinct by hash of the case."),
-    "assumptions": ["uid/gid changes only to the current ids (sandbox runs as one user)", "runs twice: tiny-std with the `start` feature (binary c13) and without it (binary c13ns)", "Environment::Inherit needs the start-up code of a no-libc binary and is not asserted here",
+    "assumptions": ["uid/gid changes only to the current ids (sandbox runs as one user)", "runs twice: tiny-std with the `start` feature (binary c13) and without it (binary c13ns)", "Environment::Inherit needs the start-up code of a no-libc binary: sub-check start-probe starts the no-libc probe-spawn with a generated raw environment block and compares what the spawned helper sees",
                     "ownership of a Stdio::RawFd descriptor is undocumented: both 'closed by spawn' and 'left open' are accepted and recorded"],
     "required_classes": ["spawn:ok-dump-verified", "spawn:fail-pipe2", "spawn:fail-fork", "spawn:fail-child-dup2", "spawn:fail-child-chdir", "spawn:fail-child-closure",
-                         "spawn:fail-child-execve", "spawn:sync-read-eintr", "spawn:stdio-pipe", "spawn:stdio-null", "spawn:stdio-rawfd", "spawn:env-provided", "spawn:command-reused", "spawn:caller-std-fd-closed"],
+                         "spawn:fail-child-execve", "spawn:sync-read-eintr", "spawn:stdio-pipe", "spawn:stdio-null", "spawn:stdio-rawfd", "spawn:env-provided", "spawn:command-reused", "spawn:caller-std-fd-closed", "start-probe:inherit-under-start", "start-probe:provided-under-start"],
     "timeout_quick": 900, "timeout_thorough": 7200,
 }
